@@ -265,7 +265,7 @@ func randOpNames(r *common.Rng) []string {
 
 func randBM(r *common.Rng) (*bondmachine.Bondmachine, string) {
 	bm := new(bondmachine.Bondmachine)
-	bm.Rsize = []uint8{8, 16, 32}[r.Intn(3)]
+	bm.Rsize = []uint8{8, 16, 32, 64, 16, 32}[r.Intn(6)]
 	bm.Init() // cmd/bondmachine and basm call Init on every machine they create
 	nd := 1 + r.Intn(3)
 	for d := 0; d < nd; d++ {
@@ -473,20 +473,21 @@ func buildCases(r *common.Rng, n int) []*genCase {
 		name  string
 		ndom  int
 		procs []int
+		rsize uint8
 	}{
-		{"shareddomain", 1, []int{0, 0}},
-		{"shareddomain3", 1, []int{0, 0, 0}},
-		{"unuseddomain", 3, []int{2}},
-		{"permuted", 3, []int{2, 0, 1}},
-		{"mixed", 2, []int{1, 1, 0, 1}},
-		{"moredomains", 4, []int{3, 1}},
+		{"shareddomain", 1, []int{0, 0}, 16},
+		{"shareddomain3", 1, []int{0, 0, 0}, 8},
+		{"unuseddomain", 3, []int{2}, 32},
+		{"permuted", 3, []int{2, 0, 1}, 64},
+		{"mixed", 2, []int{1, 1, 0, 1}, 16},
+		{"moredomains", 4, []int{3, 1}, 32},
 	} {
 		bm := new(bondmachine.Bondmachine)
-		bm.Rsize = 8
+		bm.Rsize = shape.rsize
 		bm.Init()
 		for d := 0; d < shape.ndom; d++ {
 			m, _ := randMachine(r, []string{"nop", "r2s", "s2r", "k2r", "r2u", "u2r", "q2r", "r2q", "t2r", "r2t", "r2v", "lfsr82r", "hit", "wrd", "wwr", "chc", "chw"})
-			m.Rsize = 8
+			m.Rsize = shape.rsize
 			m.Modes = []string{"ha"}
 			bm.Domains = append(bm.Domains, m)
 		}
